@@ -394,7 +394,9 @@ func isErrorReturn(r *ssa.Return) bool {
 	case *ssa.MakeInterface:
 		return true
 	case *ssa.Call:
-		return alwaysErrorCall(x, 0)
+		if alwaysErrorCall(x, 0) {
+			return true
+		}
 	}
 	// return inside the true branch of `if last != nil`
 	blk := r.Block()
